@@ -275,7 +275,7 @@ def run(ctx):
     # contains the word is an ordinary question and may carry save_to
     SAVETO_TYPES = [("text", True), ("integer", True), ("select_one repeat_reasons", True), ("select_one group_list", True),
                     ("select_multiple regroup", True), ("select_one_from_file groups.csv", True), ("calculate", True),
-                    ("begin group", False), ("begin_group", False), ("begin repeat", False), ("begin_repeat", False)]
+                    ("begin group", False), ("begin_group", False), ("begin repeat", False), ("begin_repeat", False), ("begin lgroup", False), ("begin looped group", False)]
     itc = ctx.interp("C19.R2", hooks={"fnname:is_xml_tag": lambda interp, args, kwargs, node: True})
     for typ, accept in SAVETO_TYPES:
         itc.reset([])
